@@ -57,7 +57,9 @@ func Spec() *run.Spec {
 			"(short reads of 1–64 bytes, iotest.OneByteReader, HalfReader, DataErrReader — data together with io.EOF —, bufio, LimitReader). One case = one (file, contiguous 1/4 or 1/16 of its cut set) chunk. " +
 			"Phase `large-files` (SAMPLED, not exhaustive): 10 (quick) / 30 (thorough) big files — PLY LE / BE / ASCII with ≥ 65 537 and ≥ 131 074 vertices, STL > 8192 triangles, SPZ > 16 384 points, .splat > 4096 splats, PTS > 10 000 lines — " +
 			"each with 200 cuts (ASCII PLY: 64 in quick): 4096·k records ±1 byte, 64 KiB·k ±1, header positions, the last 64 bytes, random positions; reader kinds rotate; every decode runs in its own goroutine under a state-based stall detector. " +
-			"In both phases the complete file is also decoded through one of ten reader kinds (bytes.Reader, plain, OneByte, Half, DataErr, Limit, bufio, os.File, pipe, gzip) and must decode identically. " +
+			"Phase `path-loads` (SAMPLED cuts, not exhaustive): the path-based loaders of the formats packages (ply.Load, ply.MeshReader.Load, stl.Load, spz.Load; splat and pts have none) in histories of 3–6 loads within one process over two files of one loader family: " +
+			"a truncated file (cut sampled from its cut set: 40 % past half the file, the last 16 positions, the header, anywhere) written into the worker's scratch directory must be rejected or load to data wholly present (same oracle) whatever was rejected before, and a complete file must load bit-identically to the reader-based decode of the same bytes; plain build. " +
+			"In `cuts` and `large-files` the complete file is also decoded through one of ten reader kinds (bytes.Reader, plain, OneByte, Half, DataErr, Limit, bufio, os.File, pipe, gzip) and must decode identically. " +
 			"A case is non-trivial when the complete file decoded to the expected element count, holds at least one record and at least one prefix was decoded; " +
 			"distinct = distinct (kind, structural descriptor, chunk) triples.",
 		Assumptions: []string{
@@ -101,6 +103,12 @@ func Spec() *run.Spec {
 		},
 		Phases: []run.Phase{
 			{Name: "cuts", Cases: func(tier string) int { return filesPer(tier) * chunksPer(tier) }, Run: runChunk, Batch: 8, CPUBudgetS: 10},
+			{Name: "path-loads", Cases: func(tier string) int {
+				if tier == "thorough" {
+					return 40000
+				}
+				return 1300
+			}, Run: runPathHistory, Batch: 100, CPUBudgetS: 10},
 			{Name: "large-files", Cases: func(tier string) int { return bigFilesPer(tier) * bigChunks }, Run: runBigChunk, Batch: 1, CPUBudgetS: 60, StallViolation: true},
 		},
 		Finalize: finalize,
@@ -129,7 +137,8 @@ type session struct {
 	res         *run.Result
 	f           *vfile
 	fi          int
-	pre         string // counter prefix: "" (cuts) or "large/"
+	pre         string // counter prefix: "" (cuts), "large/" or "path/"
+	site        string // entry point under observation when it is not the reader-based decoder of the file
 	guarded     bool   // decodes run in their own goroutine under the stall detector
 	fullSnap    *ref.Snapshot
 	fullCorners *ref.CornerView
@@ -237,7 +246,11 @@ func (s *session) violate(class, input, detail string, w map[string]any) {
 	if len(s.f.Data) <= 3000 {
 		w["file_base64"] = base64.StdEncoding.EncodeToString(s.f.Data)
 	}
-	s.res.Violate(class, s.f.Site, input, detail, w)
+	site := s.f.Site
+	if s.site != "" {
+		site = s.site
+	}
+	s.res.Violate(class, site, input, detail, w)
 }
 
 // complete decodes the whole file through the plain reader (the baseline), checks that
@@ -466,6 +479,7 @@ func finalize(a *run.Aggregate) {
 	a.Extra["every_cut_of_every_file_decoded"] = complete
 	a.Extra["exhaustive_per_phase"] = map[string]any{
 		"cuts":        "true — every position of the stated cut set of every generated file (see cut_set_account)",
+		"path-loads":  "false — sampled cuts (histories of path-based loads; cut positions drawn from the cut set of each file)",
 		"large-files": "false — sampled cuts: block boundaries ±1, 64 KiB multiples ±1, header, last 64 bytes, random (see large/… counters)",
 	}
 }
